@@ -375,6 +375,7 @@ func joinNames(aName, bName string, aNames, bNames []string) []string {
 	aNamesSet := make(map[string]bool)
 	for _, name := range aNames {
 		aNamesSet[name] = true
+		ret = append(ret, name)
 	}
 	for _, name := range bNames {
 		if !aNamesSet[name] {
